@@ -30,7 +30,9 @@ tvars == <<l, fails, Z, geo, need>>
 Degenerate(ln) == Has(ln, "degenerate")
 Untruncated(ln, nd) == ln.cutoff0 /\ ln.cap >= nd /\ ~Degenerate(ln)
 
-HandNeed(ln, g) == Need(g.edges, ln.blocks, ln.bonds)
+\* bonds: the bonds between neighbouring boundary groups; wbonds: the wrap-around bonds of a periodic direction along
+\* the boundary (compressed by the graph based schemes only: they count for the hypothesis, not for CapRespected)
+HandNeed(ln, g) == MaxI(Need(g.edges, ln.blocks, ln.bonds), Need(g.edges, ln.blocks, ln.wbonds))
 
 HandClauses(ln, z, g, nd) ==
   << <<"CapRespected", WithinCap(ln.bonds, ln.cap)>>,
